@@ -4,7 +4,7 @@
    model (carried by the block description, not axioms): verification of the consensus witness, admission
    of the transactions by the per-block scratch pool, execution of the block.
    [afix_none] = the code at the pinned commit, [afix_all] = with fixes/F35, F36 applied. *)
-From NG Require Import Common.Tactics Node.Accept Node.AcceptProofs Node.AcceptPool Node.AcceptPoolProofs Admission.Conflicts Node.AcceptConflicts.
+From NG Require Import Common.Tactics Node.Accept Node.AcceptProofs Node.AcceptPool Node.AcceptPoolProofs Admission.Conflicts Node.AcceptConflicts Node.AcceptPolicy.
 Open Scope N_scope.
 
 (* accepted <=> the conjunction the property lists (next index; state-root setting; linked to the tip with a
@@ -100,6 +100,34 @@ Theorem C06_refresh_unsound_refuted :
   prun wp_valid wp_relevant_weak true true (1, []) wp_ops = (3, []) /\ wp_valid 2 7 = false.
 Proof. exact refresh_unsound_refuted. Qed.
 Print Assumptions C06_refresh_unsound_refuted.
+
+(* ---- the pool after a committee change of a POLICY value (Node/AcceptPolicy.v) ----
+   Policy (FeePerByte, ExecFeeFactor, attribute fees, MaxValidUntilBlockIncrement) is a function of the height; a
+   fresh verification at height h ([pvalid]) wants height < ValidUntilBlock <= height + increment and a network fee
+   that pays size * FeePerByte + attribute fees + the witnesses at ExecFeeFactor.  With a refresh that repeats this
+   check, for EVERY Policy trajectory and every history of poolings and offered blocks, every pooled transaction is
+   valid at the current height and every transaction of an accepted block is valid at the time of the offer. *)
+Theorem C06_policy_pool_sound : forall (pol : N -> policy) (txs : N -> ptx) (verify : bool) ops n0,
+  PoolOK (pvalid pol txs) (prun (pvalid pol txs) (relevant_full pol txs) verify true (n0, []) ops).
+Proof. exact policy_pool_sound. Qed.
+Print Assumptions C06_policy_pool_sound.
+
+Theorem C06_policy_pooled_valid_at_offer : forall (pol : N -> policy) (txs : N -> ptx) ops n0 bt,
+  let st := prun (pvalid pol txs) (relevant_full pol txs) true true (n0, []) ops in
+  block_ok (pvalid pol txs) true (fst st) (snd st) bt = true -> forall t, In t bt -> pvalid pol txs (fst st) t = true.
+Proof. exact policy_pooled_valid_at_offer. Qed.
+Print Assumptions C06_policy_pooled_valid_at_offer.
+
+(* refuted for the refresh of the code as it stands (F57: expiry, and the transaction's fee per byte against
+   FeePerByte only when that exceeds every value the pool has seen): T pooled at height 1, the block at height 2
+   changes Policy, the block carrying T is accepted although T is invalid - FeePerByte x3, ExecFeeFactor x3, the
+   attribute fee raised, MaxValidUntilBlockIncrement lowered, FeePerByte lowered and raised again; the same histories
+   with the full refresh refuse the block *)
+Theorem C06_policy_refresh_cached_refuted :
+  stale_accepted pol_fpb3 t_min /\ stale_accepted pol_exec3 t_min /\ stale_accepted pol_attr t_attr /\
+  stale_accepted pol_vub t_far /\ stale_accepted pol_downup t_big.
+Proof. exact policy_refresh_cached_refuted. Qed.
+Print Assumptions C06_policy_refresh_cached_refuted.
 
 (* ---- on-chain Conflicts backed by ANY signer (Node/AcceptConflicts.v over the record-table model of
    Admission/Conflicts.v) ----
